@@ -203,7 +203,7 @@ func c11(args []string) {
 	// in-port (which in-port the library looks at first is a matter of map order, so that one is repeated)
 	for _, k := range []string{"dirout", "gather", "tagzip", "tagtwice"} {
 		for r := 0; r < map[string]int{"dirout": 2, "gather": c.Pick(8, 24), "tagzip": c.Pick(4, 12), "tagtwice": 2}[k]; r++ {
-			tc := topoCase{k, gen.ShapePlain, false, 2}
+			tc := topoCase{k, gen.ShapePlain, false, 2 + r%2}
 			jobs = append(jobs, &c11Job{kind: "runto", tc: &tc, target: []string{"A"}, cfg: Cfg{Buf: 3, Procs: 2}, label: "RunTo A then Run (" + k + ")"})
 		}
 	}
